@@ -643,3 +643,305 @@ Proof.
   assert (He : 0 < t / P) by (apply Rdiv_lt_0_compat; lra).
   split; [apply Rmult_le_pos; lra | rewrite (Rmult_comm B); apply Rmult_le_compat_l; lra].
 Qed.
+
+(* ------------------------------------------------------------------ Part G *)
+
+(* ---- the constants *)
+Lemma Q2R_pos : forall q, (0 < q)%Q -> 0 < Q2R q.
+Proof. intros q H. rewrite <- RMicromega.Q2R_0. apply Qlt_Rlt, H. Qed.
+Lemma Q2R_nonneg : forall q, (0 <= q)%Q -> 0 <= Q2R q.
+Proof. intros q H. rewrite <- RMicromega.Q2R_0. apply Qle_Rle, H. Qed.
+
+Lemma tolR_pos : 0 < tolR.
+Proof. apply Q2R_pos. reflexivity. Qed.
+Lemma tol_lo_le : tol_lo <= tolR.
+Proof. apply Qle_Rle. unfold Qle. vm_compute. discriminate. Qed.
+Lemma tol_hi_ge : tolR <= tol_hi.
+Proof. apply Qle_Rle. unfold Qle. vm_compute. discriminate. Qed.
+Lemma relR_nonneg : 0 <= relR.
+Proof. apply Q2R_nonneg. unfold Qle. vm_compute. discriminate. Qed.
+Lemma absR_nonneg : 0 <= absR.
+Proof. apply Q2R_nonneg. unfold Qle. vm_compute. discriminate. Qed.
+
+Lemma is_break_near_break : forall t K, is_break t K -> near_break t K.
+Proof.
+  intros t K [H1 [H2 H3]]. split; [exact H1|]. split.
+  - pose proof tol_hi_ge. lra.
+  - intros j Hj. specialize (H3 j Hj). pose proof tol_lo_le. lra.
+Qed.
+
+(* ---- termination of the truncation loops: a break index exists as soon as some term is small *)
+Lemma least_break : forall t, (exists j, (1 <= j)%nat /\ Rabs (t j) < tolR) -> exists K, is_break t K.
+Proof.
+  intros t [j0 [Hj0 Hs0]].
+  assert (H : forall n, (forall j, (1 <= j <= n)%nat -> tolR <= Rabs (t j)) \/ exists K, (K <= n)%nat /\ is_break t K).
+  { induction n as [|n [IH|[K [HK Hb]]]].
+    - left. intros j Hj. lia.
+    - destruct (Rlt_dec (Rabs (t (S n))) tolR) as [Hlt|Hge].
+      + right. exists (S n). split; [lia|]. split; [lia|]. split; [exact Hlt|].
+        intros j Hj. apply IH. lia.
+      + left. intros j Hj. destruct (Nat.eq_dec j (S n)) as [->|Hn]; [apply Rnot_lt_le, Hge | apply IH; lia].
+    - right. exists K. split; [lia | exact Hb]. }
+  destruct (H j0) as [Hall|[K [_ Hb]]].
+  - specialize (Hall j0 ltac:(lia)). lra.
+  - exists K. exact Hb.
+Qed.
+
+Lemma pl_term_small : forall s eps, 0 < s -> 0 < eps -> exists j, (1 <= j)%nat /\ pl_term s j < eps.
+Proof.
+  intros s eps Hs He.
+  set (x := exp (- ln eps / s)).
+  assert (Hx : 0 < x) by apply exp_pos.
+  destruct (nfloor_ex x ltac:(lra)) as [n [Hn1 Hn2]].
+  exists (S n). split; [lia|].
+  unfold pl_term, Rpower. rewrite <- (exp_ln eps He). apply exp_increasing.
+  rewrite S_INR.
+  assert (Hl : ln x < ln (INR n + 1)) by (apply ln_increasing; lra).
+  unfold x in Hl. rewrite ln_exp in Hl.
+  assert (Hm : s * (- ln eps / s) < s * ln (INR n + 1)) by (apply Rmult_lt_compat_l; lra).
+  replace (s * (- ln eps / s)) with (- ln eps) in Hm by (field; lra). lra.
+Qed.
+
+Theorem power_law_loop_terminates : forall s, 0 < s -> exists K, is_break (pl_term s) K.
+Proof.
+  intros s Hs. apply least_break.
+  destruct (pl_term_small s tolR Hs tolR_pos) as [j [Hj Hlt]].
+  exists j. split; [exact Hj|]. rewrite Rabs_pos_eq; [exact Hlt | left; apply pl_term_pos].
+Qed.
+
+Theorem cutoff_loop_terminates : forall s z, 0 < s -> 0 < z <= 1 -> exists K, is_break (co_term s z) K.
+Proof.
+  intros s z Hs Hz. apply least_break.
+  destruct (pl_term_small s tolR Hs tolR_pos) as [j [Hj Hlt]].
+  exists j. split; [exact Hj|].
+  pose proof (co_term_pos s z j ltac:(lra)) as Hc. rewrite Rabs_pos_eq by lra.
+  unfold co_term. fold (pl_term s j).
+  assert (z ^ j <= 1) by (rewrite <- (pow1 j); apply pow_incr; lra).
+  assert (0 < z ^ j) by (apply pow_lt; lra).
+  pose proof (pl_term_pos s j). nra.
+Qed.
+
+(* ---- the model's own values satisfy the specification the checker enforces *)
+Lemma near_refl : forall x, near x x.
+Proof.
+  intros x. unfold near. replace (x - x) with 0 by ring. rewrite Rabs_R0.
+  pose proof relR_nonneg. pose proof absR_nonneg. pose proof (Rabs_pos x). nra.
+Qed.
+
+Theorem model_exponential_spec : forall a k, 0 < a -> Spec_exponential a k (exponential_R a k).
+Proof. intros a k Ha. split; [apply exponential_nonneg; lra | apply near_refl]. Qed.
+
+Theorem model_poisson_spec : forall m k, 0 < m -> Spec_poisson m k (poisson_R m k).
+Proof. intros m k Hm. split; [apply poisson_nonneg; lra | apply near_refl]. Qed.
+
+Theorem model_power_law_spec : forall s K k, is_break (pl_term s) K -> Spec_power_law s k (power_law_R s K k).
+Proof.
+  intros s K k Hb. split.
+  - left. apply power_law_pos. destruct Hb as [H _]. exact H.
+  - exists K. split; [apply is_break_near_break, Hb | apply near_refl].
+Qed.
+
+Theorem model_cutoff_spec : forall s kappa K k,
+  is_break (co_term s (cutoff_z kappa)) K -> Spec_cutoff s kappa k (cutoff_R s kappa K k).
+Proof.
+  intros s kappa K k Hb. split.
+  - left. apply cutoff_pos. destruct Hb as [H _]. exact H.
+  - exists K. split; [apply is_break_near_break, Hb | apply near_refl].
+Qed.
+
+(* ---- what the specification says about the NAMED laws (full zeta / polylogarithm) *)
+Lemma near_exact : forall x p e B, 0 <= B -> 0 < e -> 0 <= p - e <= B * e -> near x p ->
+  Rabs (x - e) <= (B + relR * (1 + B)) * e + absR.
+Proof.
+  intros x p e B HB He Hp Hn. unfold near in Hn.
+  assert (Hpp : 0 < p) by nra.
+  rewrite (Rabs_pos_eq p) in Hn by lra.
+  replace (x - e) with ((x - p) + (p - e)) by ring.
+  eapply Rle_trans; [apply Rabs_triang|].
+  rewrite (Rabs_pos_eq (p - e)) by lra.
+  pose proof relR_nonneg. nra.
+Qed.
+
+Theorem spec_power_law_exact : forall s k x, 2 <= s -> Spec_power_law s k x ->
+  0 <= x /\ exists K, near_break (pl_term s) K /\
+    Rabs (x - power_law_exact s k)
+      <= (Rpower (INR K) (1 - s) + relR * (1 + Rpower (INR K) (1 - s))) * power_law_exact s k + absR.
+Proof.
+  intros s k x Hs [H0 [K [Hb Hn]]]. split; [exact H0|]. exists K. split; [exact Hb|].
+  assert (HK : (1 <= K)%nat) by (destruct Hb as [H _]; exact H).
+  pose proof (power_law_pointwise s K k Hs HK) as Hp.
+  destruct (zeta_tail s K Hs HK) as [_ [Hz0 _]]. pose proof (psum_pl_ge_1 s K HK).
+  apply (near_exact x (power_law_R s K k)); [left; apply exp_pos | | exact Hp | exact Hn].
+  unfold power_law_exact. apply Rdiv_lt_0_compat; [apply pl_term_pos | lra].
+Qed.
+
+Theorem spec_cutoff_exact : forall s kappa k x, 2 <= s -> 0 < kappa -> Spec_cutoff s kappa k x ->
+  0 <= x /\ exists K, near_break (co_term s (cutoff_z kappa)) K /\
+    Rabs (x - cutoff_exact s kappa k)
+      <= (Rpower (INR K) (1 - s) + relR * (1 + Rpower (INR K) (1 - s))) * cutoff_exact s kappa k + absR.
+Proof.
+  intros s kappa k x Hs Hk [H0 [K [Hb Hn]]]. split; [exact H0|]. exists K. split; [exact Hb|].
+  assert (HK : (1 <= K)%nat) by (destruct Hb as [H _]; exact H).
+  pose proof (cutoff_pointwise s kappa K k Hs Hk HK) as Hp.
+  pose proof (cutoff_z_range kappa Hk) as Hz.
+  destruct (polylog_tail s (cutoff_z kappa) K Hs ltac:(lra) HK) as [_ [Hz0 _]].
+  pose proof (psum_co_ge_z s (cutoff_z kappa) K ltac:(lra) HK).
+  apply (near_exact x (cutoff_R s kappa K k)); [left; apply exp_pos | | exact Hp | exact Hn].
+  rewrite cutoff_exact_co_term. apply Rdiv_lt_0_compat; [apply co_term_pos; lra | lra].
+Qed.
+
+(* absolute form of the pointwise bounds (the exact laws are at most 1 on the support) *)
+Lemma pl_term_le_1 : forall s k, 0 <= s -> (1 <= k)%nat -> pl_term s k <= 1.
+Proof.
+  intros s k Hs Hk. unfold pl_term, Rpower. rewrite <- exp_0.
+  assert (0 <= ln (INR k)).
+  { rewrite <- ln_1. destruct (Nat.eq_dec k 1) as [->|Hn]; [simpl; lra|].
+    left. apply ln_increasing; [lra|]. replace 1 with (INR 1) by reflexivity. apply lt_INR. lia. }
+  destruct (Req_dec (- s * ln (INR k)) 0) as [->|Hne]; [lra|].
+  left. apply exp_increasing. nra.
+Qed.
+
+Theorem power_law_pointwise_abs : forall s K k, 2 <= s -> (1 <= K)%nat -> (1 <= k)%nat ->
+  Rabs (power_law_R s K k - power_law_exact s k) <= Rpower (INR K) (1 - s).
+Proof.
+  intros s K k Hs HK Hk. pose proof (power_law_pointwise s K k Hs HK) as [H0 H1].
+  rewrite Rabs_pos_eq by exact H0.
+  destruct (zeta_tail s K Hs HK) as [_ [Hz0 _]]. pose proof (psum_pl_ge_1 s K HK) as HZ.
+  pose proof (pl_term_le_1 s k ltac:(lra) Hk) as Ht. pose proof (pl_term_pos s k) as Htp.
+  assert (He : power_law_exact s k <= 1).
+  { unfold power_law_exact. apply Rle_trans with (1 / 1); [|lra].
+    unfold Rdiv. apply Rmult_le_compat; try lra.
+    - left. apply Rinv_0_lt_compat. lra.
+    - apply Rinv_le_contravar; lra. }
+  assert (0 < Rpower (INR K) (1 - s)) by apply exp_pos.
+  assert (0 < power_law_exact s k) by (unfold power_law_exact; apply Rdiv_lt_0_compat; lra).
+  nra.
+Qed.
+
+Theorem cutoff_pointwise_abs : forall s kappa K k, 2 <= s -> 0 < kappa -> (1 <= K)%nat -> (1 <= k)%nat ->
+  Rabs (cutoff_R s kappa K k - cutoff_exact s kappa k) <= Rpower (INR K) (1 - s).
+Proof.
+  intros s kappa K k Hs Hka HK Hk. pose proof (cutoff_pointwise s kappa K k Hs Hka HK) as [H0 H1].
+  rewrite Rabs_pos_eq by exact H0.
+  pose proof (cutoff_z_range kappa Hka) as Hz.
+  set (z := cutoff_z kappa) in *.
+  destruct (polylog_tail s z K Hs ltac:(lra) HK) as [Hex [Hz0 _]].
+  (* the exact law is at most 1: its numerator is one term of the series in the denominator *)
+  assert (He : cutoff_exact s kappa k <= 1).
+  { rewrite cutoff_exact_co_term. fold z.
+    destruct (polylog_tail s z k Hs ltac:(lra) Hk) as [_ [Hk0 _]].
+    assert (Hle : co_term s z k <= psum (co_term s z) k).
+    { destruct k as [|k]; [lia|]. cbn [psum].
+      pose proof (psum_nonneg (co_term s z) k ltac:(intros j; left; apply co_term_pos; lra)). lra. }
+    pose proof (co_term_pos s z k ltac:(lra)).
+    apply Rle_trans with (polylog s z / polylog s z); [|right; field; lra].
+    unfold Rdiv. apply Rmult_le_compat_r; [left; apply Rinv_0_lt_compat; lra | lra]. }
+  assert (0 < Rpower (INR K) (1 - s)) by apply exp_pos.
+  assert (0 < cutoff_exact s kappa k).
+  { rewrite cutoff_exact_co_term. fold z. pose proof (psum_co_ge_z s z K ltac:(lra) HK).
+    apply Rdiv_lt_0_compat; [apply co_term_pos; lra | lra]. }
+  nra.
+Qed.
+
+(* for every valid parameter and degree the loop stops and the model's value meets the specification *)
+Theorem model_power_law_total : forall s k, 0 < s ->
+  exists K, is_break (pl_term s) K /\ Spec_power_law s k (power_law_R s K k).
+Proof.
+  intros s k Hs. destruct (power_law_loop_terminates s Hs) as [K HK].
+  exists K. split; [exact HK | apply model_power_law_spec, HK].
+Qed.
+
+Theorem model_cutoff_total : forall s kappa k, 0 < s -> 0 < kappa ->
+  exists K, is_break (co_term s (cutoff_z kappa)) K /\ Spec_cutoff s kappa k (cutoff_R s kappa K k).
+Proof.
+  intros s kappa k Hs Hk. pose proof (cutoff_z_range kappa Hk) as Hz.
+  destruct (cutoff_loop_terminates s (cutoff_z kappa) Hs ltac:(lra)) as [K HK].
+  exists K. split; [exact HK | apply model_cutoff_spec, HK].
+Qed.
+
+(* ------------------------------------------------------------------ Part H *)
+
+(* ---- the batch entry point the harness evaluates: entry 3 + 3 i of the output is the verdict for case i *)
+Lemma mid_ZZ_length : forall E, length (mid_ZZ E) = 2%nat.
+Proof. intros E. unfold mid_ZZ. destruct (F.toF (I.midpoint E)); reflexivity. Qed.
+
+Lemma eval_cases_nth : forall sf encl chk cases i k x,
+  nth_error cases i = Some (k, x) ->
+  nth (3 * i) (eval_cases sf encl chk cases) 0%Z = 1%Z ->
+  (sf <= k)%nat /\ chk k x = true.
+Proof.
+  intros sf encl chk cases. induction cases as [|[k0 x0] cases IH]; intros i k x Hn Hv.
+  - destruct i; discriminate.
+  - unfold eval_cases in *. cbn [flat_map fst snd] in Hv.
+    destruct i as [|i].
+    + cbn [nth_error] in Hn. injection Hn as -> ->.
+      replace (3 * 0)%nat with 0%nat in Hv by lia.
+      destruct (Nat.ltb k sf) eqn:El.
+      * cbn in Hv. discriminate.
+      * cbn [app nth] in Hv. apply Nat.ltb_ge in El. split; [exact El|].
+        destruct (chk k x); [reflexivity | discriminate].
+    + cbn [nth_error] in Hn.
+      replace (3 * S i)%nat with (3 + 3 * i)%nat in Hv by lia.
+      apply (IH i k x Hn).
+      destruct (Nat.ltb k0 sf).
+      * cbn [app] in Hv. exact Hv.
+      * pose proof (mid_ZZ_length (encl k0 x0)) as Hl.
+        destruct (mid_ZZ (encl k0 x0)) as [|m1 [|m2 [|m3 r]]]; try discriminate.
+        cbn [app] in Hv. exact Hv.
+Qed.
+
+Lemma nth_app_3 : forall (a b c : Z) l n, nth (3 + n) ([a; b; c] ++ l) 0%Z = nth n l 0%Z.
+Proof. intros. reflexivity. Qed.
+
+Lemma nth_short3 : forall (a b c : Z) n, nth (3 + n) [a; b; c] 0%Z = 1%Z -> False.
+Proof. intros a b c n H. cbn in H. destruct n; discriminate. Qed.
+
+Theorem c19_eval_exponential_sound : forall a cases i k x,
+  nth_error cases i = Some (k, x) ->
+  nth (3 + 3 * i) (c19_eval 0 [a] cases) 0%Z = 1%Z ->
+  Spec_exponential (Q2R a) k (Q2R x).
+Proof.
+  intros a cases i k x Hn Hv. unfold c19_eval in Hv. cbn [nth] in Hv.
+  destruct (valid_exponential a).
+  - rewrite nth_app_3 in Hv. apply eval_cases_nth with (k := k) (x := x) in Hv; [|exact Hn].
+    apply check_exponential_sound, Hv.
+  - apply nth_short3 in Hv. contradiction.
+Qed.
+
+Theorem c19_eval_poisson_sound : forall m cases i k x,
+  nth_error cases i = Some (k, x) ->
+  nth (3 + 3 * i) (c19_eval 1 [m] cases) 0%Z = 1%Z ->
+  Spec_poisson (Q2R m) k (Q2R x).
+Proof.
+  intros m cases i k x Hn Hv. unfold c19_eval in Hv. cbn [nth] in Hv.
+  destruct (valid_poisson m).
+  - rewrite nth_app_3 in Hv. apply eval_cases_nth with (k := k) (x := x) in Hv; [|exact Hn].
+    apply check_poisson_sound, Hv.
+  - apply nth_short3 in Hv. contradiction.
+Qed.
+
+Theorem c19_eval_power_law_sound : forall s cases i k x,
+  nth_error cases i = Some (k, x) ->
+  nth (3 + 3 * i) (c19_eval 2 [s] cases) 0%Z = 1%Z ->
+  (1 <= k)%nat /\ Spec_power_law (Q2R s) k (Q2R x).
+Proof.
+  intros s cases i k x Hn Hv. unfold c19_eval in Hv. cbn [nth] in Hv.
+  destruct (valid_power_law s); [|apply nth_short3 in Hv; contradiction].
+  destruct (cands_power_law FUEL s) as [[|[Khi N] rest]|] eqn:Ec; try (apply nth_short3 in Hv; contradiction).
+  rewrite nth_app_3 in Hv. apply eval_cases_nth with (k := k) (x := x) in Hv; [|exact Hn].
+  destruct Hv as [Hk Hc]. split; [exact Hk|].
+  eapply check_power_law_sound; [exact Ec | exact Hc].
+Qed.
+
+Theorem c19_eval_cutoff_sound : forall s kappa cases i k x,
+  nth_error cases i = Some (k, x) ->
+  nth (3 + 3 * i) (c19_eval 3 [s; kappa] cases) 0%Z = 1%Z ->
+  (1 <= k)%nat /\ Spec_cutoff (Q2R s) (Q2R kappa) k (Q2R x).
+Proof.
+  intros s kappa cases i k x Hn Hv. unfold c19_eval in Hv. cbn [nth] in Hv.
+  destruct (valid_cutoff s kappa); [|apply nth_short3 in Hv; contradiction].
+  destruct (cands_cutoff FUEL s kappa) as [[|[Khi N] rest]|] eqn:Ec; try (apply nth_short3 in Hv; contradiction).
+  rewrite nth_app_3 in Hv. apply eval_cases_nth with (k := k) (x := x) in Hv; [|exact Hn].
+  destruct Hv as [Hk Hc]. split; [exact Hk|].
+  eapply check_cutoff_sound; [exact Ec | exact Hc].
+Qed.
